@@ -65,6 +65,21 @@ func finish(L *Loaded, runs []*HarnessRun, cfg *RunCfg, prop, evidencePath, repl
 	var harnessSummaries []map[string]interface{}
 	knownHit := 0
 	nviol := 0
+	if fi := os.Getenv("GOSMT_FUNCINDEX"); fi != "" {
+		// development aid: harness -> rosmar functions it executed (appended as JSON lines)
+		if f, err := os.OpenFile(fi, os.O_APPEND|os.O_CREATE|os.O_WRONLY, 0o644); err == nil {
+			for _, r := range runs {
+				var fs []string
+				for fn := range r.Funcs {
+					fs = append(fs, fn)
+				}
+				sort.Strings(fs)
+				b, _ := json.Marshal(map[string]interface{}{"harness": r.Name, "wall_s": r.Wall.Seconds(), "functions": fs})
+				f.Write(append(b, '\n'))
+			}
+			f.Close()
+		}
+	}
 	for _, r := range runs {
 		states += r.Completed
 		transitions += r.Queries
